@@ -51,6 +51,29 @@ Definition step (K : Z) (c : conn) (arrival : Z) : conn :=
 
 Definition run (K : Z) (c : conn) (arrivals : list Z) : conn := fold_left (step K) arrivals c.
 
+(* Histories that also contain what the broker itself sends on the connection (deliveries to a
+   subscriber, retained messages, wills, resends).  Client.WritePacket does not touch the
+   deadline: an outbound write is a no-op for the keepalive state; only an inbound packet
+   re-arms. *)
+Inductive hev : Type :=
+| HIn (t : Z)        (* an inbound packet arrives at time t *)
+| HOut (t : Z).      (* the broker writes a packet to the connection at time t *)
+
+Definition step_ev (K : Z) (c : conn) (e : hev) : conn :=
+  match e with
+  | HIn a => step K c a
+  | HOut _ => c
+  end.
+
+Definition run_ev (K : Z) (c : conn) (h : list hev) : conn := fold_left (step_ev K) h c.
+
+Fixpoint inbounds (h : list hev) : list Z :=
+  match h with
+  | [] => []
+  | HIn a :: r => a :: inbounds r
+  | HOut _ :: r => inbounds r
+  end.
+
 (* is the connection closed at time [t], nothing further having arrived? *)
 Definition closed_by (K : Z) (c : conn) (t : Z) : bool :=
   match c with
@@ -93,6 +116,10 @@ Definition limit_ms (K : Z) : Z := 1500 * K.
                    | (1 n)                    a Read on the connection returned n > 0 bytes (one packet)
             every packet must be followed by a re-arm with the right offset before the next read
             blocks; the CONNECT itself must be followed by an arm.
+        | (3 K history closed closed_at_ms watched_until_ms)
+            real-time run with a publisher: history = ((0 t) inbound packet | (1 t) the broker's
+            write reached the client), times in ms since the CONNECT; judged like kind 2, the
+            expectation taken from the inbound packets only.
         | (2 K arrivals_ms closed closed_at_ms watched_until_ms)
             real-time run: packets were accepted by the connection at the given times (ms since
             the CONNECT was sent), the connection was seen closed at [closed_at_ms] (closed = 1)
@@ -128,42 +155,53 @@ Definition check_probe (K : Z) (disabled : bool) (off : Z) : val :=
 
 Inductive ev : Type :=
 | EArm (disabled : bool) (off : Z)
-| ERead (n : Z).
+| ERead (n : Z)
+| EWrite (n : Z).      (* the broker wrote n bytes to the connection: no effect on the deadline *)
 
 Definition parse_ev (v : val) : option ev :=
   match v with
   | VL [VN 0; VN d; VN off] => Some (EArm (negb (d =? 0)%N) (Z.of_N off))
   | VL [VN 1; VN n] => Some (ERead (Z.of_N n))
+  | VL [VN 2; VN n] => Some (EWrite (Z.of_N n))
   | _ => None
   end.
 
-(* walk the events: [armed] = a correct arm happened since the last packet was read.
+(* walk the events: [armed] = a correct arm happened since the last packet was read; [wrote] = the
+   broker has written to the connection since then.  Offsets are measured from the moment the last
+   inbound packet was handed to the broker, so an arm is correct iff it puts the deadline 1.5 K
+   after the last INBOUND packet, whatever has been written in between.
    result: 0 ok, 1 a read blocked on a stale/absent deadline, 2 an arm with a wrong offset (spec),
-   3 arm differs from the model only *)
-Fixpoint walk (K : Z) (first : bool) (armed : bool) (evs : list ev) : N :=
+   3 arm differs from the model only, 4 wrong offset after an outbound write (the write moved
+   the deadline) *)
+Fixpoint walk (K : Z) (first : bool) (armed wrote : bool) (evs : list ev) : N :=
   match evs with
   | [] => if armed || first then 0 else 1
   | EArm d off :: r =>
-      if first then walk K first armed r       (* before the CONNECT no keepalive is known *)
-      else if negb (arm_ok_spec K d off) then 2
+      if first then walk K first armed wrote r (* before the CONNECT no keepalive is known *)
+      else if negb (arm_ok_spec K d off) then (if wrote then 4 else 2)
       else if negb (arm_ok_model K d off) then 3
-      else walk K first true r
+      else walk K first true wrote r
   | ERead _ :: r =>
-      if first then walk K false false r      (* the CONNECT: the keepalive is not known before it *)
-      else if armed then walk K false false r
+      if first then walk K false false false r (* the CONNECT: the keepalive is not known before it *)
+      else if armed then walk K false false false r
       else 1
+  | EWrite _ :: r => walk K first armed true r (* no-op for the deadline *)
   end.
 
 Definition count_reads (evs : list ev) : nat :=
   length (filter (fun e => match e with ERead _ => true | _ => false end) evs).
+Definition count_writes (evs : list ev) : nat :=
+  length (filter (fun e => match e with EWrite _ => true | _ => false end) evs).
 
 Definition check_session (K : Z) (evs : list ev) : val :=
   let nontriv := (0 <? K) && (2 <=? Z.of_nat (count_reads evs)) in
-  match walk K true false evs with
-  | 0%N => verdict 0 (tag "session") nontriv []
+  let tg := if (0 <? Z.of_nat (count_writes evs)) then tag "session-with-writes" else tag "session" in
+  match walk K true false false evs with
+  | 0%N => verdict 0 tg nontriv []
   | 1%N => verdict 1 (tag "session-stale-deadline") nontriv (model_info K)
   | 2%N => verdict 1 (tag "session-wrong-deadline") nontriv (model_info K)
-  | _ => verdict 2 (tag "session") nontriv (model_info K)
+  | 4%N => verdict 1 (tag "session-write-moved-deadline") nontriv (model_info K)
+  | _ => verdict 2 tg nontriv (model_info K)
   end.
 
 (* real-time runs: the model with a tolerance window after each expiry *)
@@ -180,10 +218,13 @@ Fixpoint rt_walk (K : Z) (t0 : Z) (arrivals : list Z) : Z * bool :=
       end
   end.
 
-Definition check_rt (K : Z) (arrivals : list Z) (closed : bool) (closed_at until : Z) : val :=
+(* [h]: the observed history, inbound packets and (for the runs with a publisher) the broker's own
+   writes; the expectation is computed from the inbound packets only, the model runs on all of it *)
+Definition check_rt_h (K : Z) (h : list hev) (closed : bool) (closed_at until : Z) : val :=
   let nontriv := true in
+  let arrivals := inbounds h in
   let '(tl, ok) := rt_walk K 0 arrivals in
-  let m := run K (Open 0) arrivals in
+  let m := run_ev K (Open 0) h in
   let minfo := match m with Open t => [VN 0; zN t] | Closed t => [VN 1; zN t] end ++ model_info K in
   if negb ok then verdict 1 (tag "rt-not-closed") nontriv minfo
   else if closed then
@@ -195,6 +236,26 @@ Definition check_rt (K : Z) (arrivals : list Z) (closed : bool) (closed_at until
   else
     if (0 <? K) && (tl + limit_ms K + rt_tol K <? until) then verdict 1 (tag "rt-not-closed") nontriv minfo
     else verdict 0 (tag "rt-open") nontriv [].
+
+Definition check_rt (K : Z) (arrivals : list Z) (closed : bool) (closed_at until : Z) : val :=
+  check_rt_h K (map HIn arrivals) closed closed_at until.
+
+Definition parse_hev (v : val) : option hev :=
+  match v with
+  | VL [VN 0; VN t] => Some (HIn (Z.of_N t))
+  | VL [VN 1; VN t] => Some (HOut (Z.of_N t))
+  | _ => None
+  end.
+
+Definition has_out (h : list hev) : bool :=
+  existsb (fun e => match e with HOut _ => true | _ => false end) h.
+
+(* same verdicts, tagged apart so that the distribution shows the runs with outbound traffic *)
+Definition retag (v : val) : val :=
+  match v with
+  | VL (VN code :: VB t :: rest) => VL (VN code :: VB (tag "w-" ++ t) :: rest)
+  | _ => v
+  end.
 
 Definition as_Z (v : val) : option Z := match v with VN n => Some (Z.of_N n) | _ => None end.
 
@@ -212,6 +273,14 @@ Definition keepalive_engine (c : val) : val :=
       match map_opt as_Z arr with
       | Some l => if (k <=? 65535)%N
                   then check_rt (Z.of_N k) l (negb (closed =? 0)%N) (Z.of_N closed_at) (Z.of_N until)
+                  else bad_case
+      | None => bad_case
+      end
+  | VL [VN 3; VN k; VL h; VN closed; VN closed_at; VN until] =>
+      match map_opt parse_hev h with
+      | Some l => if (k <=? 65535)%N
+                  then (if has_out l then retag else (fun v => v))
+                         (check_rt_h (Z.of_N k) l (negb (closed =? 0)%N) (Z.of_N closed_at) (Z.of_N until))
                   else bad_case
       | None => bad_case
       end
